@@ -189,6 +189,14 @@ FIXED_CASES = [
       _q([_grp(0, [(0, 1), (2, 10)])], root_required=[T_AVX], policy='absent'),
       _q([_grp(0, [(0, 1)]), _grp(1, [(2, 10)])], root_forbidden=[T_AVX]),
       _q([_grp(1, [(0, 1)]), _grp(2, [(2, 10)])], same_subtree=[[1, 2]], v=36)]),
+    # corner 4 (found by the proof of C03_exact_sharing): node 1 in aggregates 1 and 2, sharing disk provider 2 in aggregate 2;
+    # member_of=!1 on the unsuffixed group asking DISK_GB only: the code drops the sharing provider under anchor 1
+    ([('rp_create', 39, 1, 1, None), ('inv_set', 39, 1, 0, [_inv(0, 8)]), ('aggs_set', 39, 1, 1, [1, 2]),
+      ('rp_create', 39, 2, 2, None), ('inv_set', 39, 2, 0, [_inv(2, 100)]), ('traits_set', 39, 2, 1, [MISC]), ('aggs_set', 39, 2, 2, [2])],
+     [_q([_grp(0, [(2, 1)], forbidden_aggs=[1]), _grp(1, [(0, 1)])]),
+      _q([_grp(0, [(2, 1)], forbidden_aggs=[1])], root_forbidden=[MISC], policy='absent'),
+      _q([_grp(0, [(2, 1)]), _grp(1, [(0, 1)])]),
+      _q([_grp(0, [(2, 1)], forbidden_aggs=[1])], policy='absent')]),
 ]
 
 
@@ -683,7 +691,7 @@ def ops_coq(b):
 def write_cases(path, states):
     """states: [(Built, [(query, observed)])]; Coq prints, per state, the dump check then one code per case"""
     with open(path, 'w') as f:
-        f.write('From PV Require Import Spec.CandSpec.\n')
+        f.write('From PV Require Import Spec.CandSpec Proofs.C03x.\n')
         f.write('Definition cf := mkCfg 0 0.\n')
         names = []
         for k, (b, cases) in enumerate(states):
@@ -697,6 +705,8 @@ def write_cases(path, states):
                     # third party: the brute-force specification against the model (all anchors kept)
                     items.append('spec_check %d (candidates_all_anchors %d %s d%d) (spec_candidates %d %s d%d)' % (
                         q['v'], q['v'], qc, k, q['v'], qc, k))
+                    # the two conditions of C03_exact_sharing (outside them the code is known to omit candidates)
+                    items.append('((if in_tree_hyp %s d%d then 0 else 1) + (if forbidden_aggs_hyp %s d%d then 0 else 2))' % (qc, k, qc, k))
                 else:
                     items.append('list_check (list_rps_result %d %s d%d) %s' % (q['v'], query_coq(q, b), k,
                                                                              observed_coq(q, obs)))
@@ -728,14 +738,17 @@ LAST_STATS = {}
 SWEEP_LIMIT = 700          # listings of the systematic sweep per run (None: all 2 592, 0: none); set by checks_cand per tier
 
 
-def classify_spec_diff(q, obs):
-    """known systematic differences between the code and the declarative specification, by stable key.
+def classify_spec_diff(q, obs, hyp):
+    """the two conditions outside which the code is known to omit candidates (theorem C03_exact_sharing: inside them, in a
+    reachable state, a 200 answer IS the specification's set), evaluated in Coq for this query and state:
+    hyp & 1: in_tree on the unsuffixed group pins the anchor tree while a sharing provider of that tree shares with another
+    tree; hyp & 2: a forbidden aggregate of the unsuffixed group contains the root of a tree a sharing provider shares with
+    (the code excludes the sharing provider under that anchor, the property's text only looks at the provider itself).
     (the former classes A/B - resourceless groups - are repaired by 374fac3: a reappearance is UNCLASSIFIED)"""
-    for gr in q['groups']:
-        if gr['suffix'] == 0 and gr['in_tree'] is not None:
-            # in_tree on the unsuffixed group pins the anchor tree: sharing providers of that tree are not
-            # offered under the other anchors they share with
-            return 'in-tree-pins-anchor'
+    if hyp & 1:
+        return 'in-tree-pins-anchor'
+    if hyp & 2:
+        return 'forbidden-aggs-anchor-root'
     return 'UNCLASSIFIED'
 
 
@@ -811,7 +824,7 @@ def run(seed, n_states, n_queries, shard=20, workdir=None, verbose=True, keep=Fa
         part = states[k:k + shard]
         path = paths[k]
         res = results[k]
-        assert len(res) == sum(1 + len(c) + sum(1 for q, _o in c if q['kind'] == 'cand') for _b, c in part), len(res)
+        assert len(res) == sum(1 + len(c) + 2 * sum(1 for q, _o in c if q['kind'] == 'cand') for _b, c in part), len(res)
         pos = 0
         for i, (b, cases) in enumerate(part):
             if res[pos] != 0:
@@ -823,12 +836,13 @@ def run(seed, n_states, n_queries, shard=20, workdir=None, verbose=True, keep=Fa
                 counts[code] = counts.get(code, 0) + 1
                 if q['kind'] == 'cand':
                     sc = res[pos]
-                    pos += 1
+                    hyp = res[pos + 1]
+                    pos += 2
                     key = (SPEC_CODES[sc], 'impl: ' + ('500' if obs == ('err', 500) else
                                                      '400' if obs[0] == 'err' else CODES[code].split(',')[0]))
                     spec_counts[key] = spec_counts.get(key, 0) + 1
                     if sc == 5:
-                        cls = classify_spec_diff(q, obs)
+                        cls = classify_spec_diff(q, obs, hyp)
                         spec_classes[cls] = spec_classes.get(cls, 0) + 1
                         spec_bad.append({'class': cls, 'state': k + i, 'query': j, 'impl_vs_model': CODES[code], 'q': q,
                                          'http': query_http(q), 'observed': obs, 'ops': b.ops, 'dump': b.dump,
@@ -863,6 +877,7 @@ def run(seed, n_states, n_queries, shard=20, workdir=None, verbose=True, keep=Fa
         'model_vs_spec': {' / '.join(k): n for k, n in sorted(spec_counts.items())},
         'spec_difference_classes': spec_classes,
         'named_classes': {'in-tree-pins-anchor': spec_classes.get('in-tree-pins-anchor', 0),
+                          'forbidden-aggs-anchor-root': spec_classes.get('forbidden-aggs-anchor-root', 0),
                           'nested-sharing-keyerror': counts500,
                           'anchor-dedup': counts.get(2, 0) + counts.get(4, 0)},
         'known_finding_anchor_dedup_cases': counts.get(2, 0) + counts.get(4, 0),
